@@ -110,7 +110,7 @@ example : sinkBytes (run (cleanWorld auxCfg) (Rewriter.new (cleanWorld auxCfg) (
 /-! ### the unconditional statement (G3) -/
 
 /-- **Full statement**: the real run IS the cleaned run, every configuration, settings record, chunking. PROVED in
-Thm/Full21.lean (`Full_real_eq_clean`), by a different route than the simulation of this file: the alternative of
+Thm/Full26.lean (`Full_real_eq_clean`), by a different route than the simulation of this file: the alternative of
 `Full_real_eq_clean_run` is excluded by the dispatcher's protocol (`pending_element_aux_info_req` ⇒ the controller has a
 pending request, part of `InvY.auxPend`), which needs the dispatcher-level invariant `InvY` and the lifting
 `RelQ.parse_eq_of_agree` (Lemmas/ParseRelQ.lean) of "the operations agree on every state with the invariant; the invariant
